@@ -46,9 +46,9 @@ func init() {
 			"Not decided: mime.ParseMediaType semantics.",
 		Assumptions: commonAssumptions,
 		Run: func(c *Ctx) {
+			ruleVersionMatcherSemantics(c, "R1", "R3")
 			rulePathVersion(c, "R1")
 			ruleMatchersWriteOnAccept(c, "R2")
-			ruleHeaderVersion(c, "R3")
 			ruleVersionOrderKept(c, "R4")
 		},
 	})
@@ -246,7 +246,8 @@ func ruleGroupRejectionUndo(c *Ctx, rule string) {
 
 // ruleMatchersWriteOnAccept is C13.R3 / C15.R2.
 func ruleMatchersWriteOnAccept(c *Ctx, rule string) {
-	c.R.Rule(c.R.Property+"."+rule, 3, "when a version matcher rejects, the request and the parameters are left untouched")
+	c.R.Rule(c.R.Property+"."+rule, 1, "when a version matcher rejects, the request and the parameters are left untouched")
+	ruleVersionMatcherSemantics(c, rule, rule)
 	set := c.P.MustFunc("types.(*Context).Set")
 	for _, k := range []string{"mux.(*pathVersion).Match", "mux.(*headerVersion).Match"} {
 		f := c.P.MustFunc(k)
@@ -477,72 +478,37 @@ func ruleHostsGuards(c *Ctx, rule string) {
 // rulePathVersion is C15.R1.
 func rulePathVersion(c *Ctx, rule string) {
 	f := c.P.MustFunc("mux.(*pathVersion).Match")
-	c.R.Rule(c.R.Property+"."+rule, 5, "a path-version matcher accepts iff the path begins with '/<version>/' of a listed version, removes exactly that segment and records '/<version>'")
-	set := c.P.MustFunc("types.(*Context).Set")
-	verNoSlash := "slice(recv.versions[], -, binop<->(call<builtin:len>(recv.versions[]), 1))"
-	nTest := 0
+	c.R.Rule(c.R.Property+"."+rule, 3, "a path-version matcher accepts iff the path begins with '/<version>/' of a listed version, removes exactly that segment and records '/<version>'")
+	// first hit wins: in a scan over the list, from the true edge of the prefix test no path goes back to the loop header
 	an.AllInstrs(f, func(in ssa.Instruction) {
-		switch x := in.(type) {
-		case *ssa.Call:
-			switch an.CalleeName(&x.Call) {
-			case "strings.HasPrefix":
-				nTest++
-				t := c.O.Of(x).String()
-				good := t == "call<strings.HasPrefix>(p:r.URL.Path, recv.versions[])"
-				c.R.Add(rule, c.fk(f), "test:HasPrefix(path,version)", c.pos(in), good, ifelse(good, "the request path is tested against the listed version (with its slashes)", "the prefix test is "+t+", not HasPrefix(request path, listed version)"))
-				// first hit wins: from the true edge no path back to the loop header
-				assume := func(cond ssa.Value) (bool, bool) {
-					v, neg := stripNot(cond)
-					if v == ssa.Value(x) {
-						return !neg, true
-					}
-					return false, false
-				}
-				var back func(*ssa.BasicBlock, int) bool
-				for _, l := range rangeLoops(f) {
-					back = loopBackEdge(l)
-				}
-				var path []an.Point
-				if back != nil {
-					path = (&an.Query{Assume: assume, TargetEdge: back, Target: func(t ssa.Instruction) bool {
-						r, ok := t.(*ssa.Return)
-						if !ok {
-							return false
-						}
-						k, isC := r.Results[0].(*ssa.Const)
-						return !(isC && k.Value != nil && k.Value.ExactString() == "true")
-					}}).Search(an.After(in))
-				}
-				c.R.Add(rule, c.fk(f), "first-hit-returns-true", c.pos(in), path == nil, ifelse(path == nil, "the first listed version whose prefix matches accepts", "after a matching version the scan continues or the matcher rejects: not the first listed version wins"))
-			}
-			if _, ok := calleeIs(in, set); ok {
-				key := an.AP(x.Call.Args[1])
-				val := c.O.Of(x.Call.Args[2]).String()
-				guard := an.DominatedByEdge(in, func(b *ssa.BasicBlock, succ int) bool {
-					return edgeHas(b, succ, func(cond ssa.Value, truth bool) bool {
-						v, k, eq, ok := an.CondAtom(cond)
-						if !ok {
-							return false
-						}
-						s, isS := strConst(k)
-						return isS && s == "" && an.AP(v) == "recv.paramName" && eq != truth
-					})
-				})
-				good := key == "recv.paramName" && val == verNoSlash && guard
-				c.R.Add(rule, c.fk(f), "record:Set(paramName,version)", c.pos(in), good, ifelse(good, "records '/<version>' under the configured name, only when a name is configured", fmt.Sprintf("the recorded parameter is (%s, %s), guard=%v", key, val, guard)))
-			}
-		case *ssa.Store:
-			if an.AP(x.Addr) == "p:r.URL.Path" {
-				t := c.O.Of(x.Val).String()
-				good := t == "call<strings.TrimPrefix>(p:r.URL.Path, "+verNoSlash+")" ||
-					t == "slice(p:r.URL.Path, call<builtin:len>("+verNoSlash+"), -)" // behind HasPrefix(path, version): the same cut
-				c.R.Add(rule, c.fk(f), "rewrite:path=TrimPrefix(path,version)", c.pos(in), good, ifelse(good, "exactly the version segment is removed from the original path", "the path is rewritten to "+t+", not TrimPrefix(original path, '/<version>')"))
-			}
+		x, ok := in.(*ssa.Call)
+		if !ok || an.CalleeName(&x.Call) != "strings.HasPrefix" {
+			return
 		}
+		assume := func(cond ssa.Value) (bool, bool) {
+			v, neg := stripNot(cond)
+			if v == ssa.Value(x) {
+				return !neg, true
+			}
+			return false, false
+		}
+		var back func(*ssa.BasicBlock, int) bool
+		for _, l := range rangeLoops(f) {
+			back = loopBackEdge(l)
+		}
+		if back == nil {
+			return
+		}
+		path := (&an.Query{Assume: assume, TargetEdge: back, Target: func(t ssa.Instruction) bool {
+			r, ok := t.(*ssa.Return)
+			if !ok {
+				return false
+			}
+			k, isC := r.Results[0].(*ssa.Const)
+			return !(isC && k.Value != nil && k.Value.ExactString() == "true")
+		}}).Search(an.After(in))
+		c.R.Add(rule, c.fk(f), "first-hit-returns-true", c.pos(in), path == nil, ifelse(path == nil, "the first listed version whose prefix matches accepts", "after a matching version the scan continues or the matcher rejects: not the first listed version wins"))
 	})
-	if nTest == 0 {
-		c.R.Add(rule, c.fk(f), "test:HasPrefix(path,version)", c.P.Pos(f.Pos()), false, "no prefix test of the request path against the versions")
-	}
 	// constructor: stored versions went through both normalisation steps
 	ctor := c.P.MustFunc("mux.NewPathVersion")
 	found := false
